@@ -21,7 +21,9 @@ def random_strings(rng, alphabet, count, minlen, maxlen):
 def random_texts(rng, count, multiline=True):
     """Structured printable texts: words, quotes, backslashes, indentation, blank lines."""
     words = ['a', 'note', "it's", '"q"', "'''", "''", '\\', '\\n', '`x`', '{b}', '[k]', '#fff', '//c', '/*c*/',
-             'é', '日本', '😀', "\\'", 'x' * 7, ':', ',', ']', '}', "'", '"""', 'null', 'true', '0', '1.5']
+             'é', '日本', '😀', "\\'", 'x' * 7, ':', ',', ']', '}', "'", '"""', 'null', 'true', '0', '1.5',
+             # not in Unicode normal form / compatibility and case-mapping characters: stored as written
+             'e\u0301', 'A\u030a', '\u212b', '\u2126', '\ufb01', '\uff21', '\u1e9e', '\u0130']
     for _ in range(count):
         nlines = rng.randint(1, 4) if multiline else 1
         lines = []
